@@ -90,6 +90,11 @@ def install(it):
         ctx.prove(name, it_.truth(c, ctx), label=label)
     reg("prove", prove)
 
+    def lemma(it_, ctx, name, c, label=None):
+        """prove c here and use it as an assumption afterwards"""
+        ctx.prove(name, it_.truth(c, ctx), label=label, assume_after=True)
+    reg("lemma", lemma)
+
     def cover(it_, ctx, name):
         ctx.covers.add(name)
     reg("cover", cover)
